@@ -32,6 +32,10 @@ def gen_scenario(seed, i, store):
         exprs = g.exprs
     if rng.chance(1, 2):
         w["env"] = {"e1": rng.below(9), "region": "eu"}
+    if rng.chance(1, 3):
+        # the env is written at run time too, by a script act that is not the root task
+        w.setdefault("env", {})["stage"] = "draft"
+        w["steps"].insert(0, {"id": "s0", "acts": [{"id": "a0c", "uses": gen.CODE, "params": '$env.stage = "reviewed"; $env.count = 7;'}, {"id": "a0", "uses": gen.IRQ, "key": "ka0"}]})
     ops = [["deploy", 0], ["start", "m1", {"pid": "p1", "x": rng.below(4), "y": rng.below(4)}]]
     ops += gen.random_history(rng.fork("h"), n=rng.range(6, 14), stepped_p=20,
                               actions=["next", "next", "submit", "skip", "abort", "error", "set_process_vars", "next"] if i % 5 != 2 else ["next", "error", "error", "next", "skip"],
